@@ -7,7 +7,7 @@ reply   : cmp → r=<a?b> rr=<b?a> ra=<a?a> rb=<b?b> acc=<xy> gv=<xy> kf=<xy> [s
                  versions, spec = the verdict of the ecosystem's published rule, Spec/Semantic/*.lean)
           tri → ab=<a?b> bc=<b?c> ac=<a?c> ba=<b?a> cb=<c?b> ca=<c?a> acc=<xyz> gv=<xyz> kf=<xyz>
           results are lt|eq|gt|err|panic, or `unsup` for an ecosystem `Parse` does not know.
-          acc = Parse accepted the string; gv = grammar-valid (domain of the transitivity claim);
+          acc = Parse accepted the string; gv = acceptedByCode (the code-defined domain on which transitivity is judged);
           kf = member of a known-finding class (Spec.Semantic.knownClass).
 -/
 import Scalibr.Base.Wire
